@@ -32,7 +32,7 @@ CHECKS = {
     "C16": dict(
         level="model_checking", design="DESIGN.md §3 C16",
         technique="CrossHair (z3) symbolic execution of the line-number and counting kernels: extract_docstring_linenum (symbolic text, unbounded ints), Documentable.report, System.msg (unbounded ints), reportErrors/Field.report, driver.main exit status",
-        text="Bounded model checking of the arithmetic behind every warning: docstring start line for every text of <=4 (5) characters and every int line number incl. the shift-by-k law; report() line/file selection for all small line values, sections and object kinds; msg() counting/printing for all ints; reportErrors/Field.report offsets and once-per-object; main()'s exit status for every (violations, parse errors, -W). The per-construct line numbers computed inside the epytext/docutils parsers are inputs here, not verified.",
+        text="Bounded model checking of the arithmetic behind every warning: docstring start line for every text of <=4 (5) characters and every int line number incl. the shift-by-k law; report() line/file selection for all small line values, sections and object kinds; msg() counting/printing for all ints; reportErrors/Field.report offsets and once-per-object; main()'s exit status for every (violations, parse errors, -W). K16f (class E) plants one problem (bad cross-reference, unknown field, non-existent parameter, markup error) at a known physical line in 960 (1 920) generated modules - 4 docformats x 5 object kinds x 5 docstring layouts x offsets x raw - and every warning issued by the real parsers names that line (epytext/reST) or a line of that docstring (google/numpy) and moves by k with the definition. Docstring texts other than the generated one are not covered.",
         note="Trusted: CrossHair exhaustion verdict. Stubs: System.msg capture, Options.from_args/get_system/make in the exit-status harness under the invariant parse_errors non-empty => violations >= 1.",
     ),
     "C14": dict(
@@ -62,7 +62,7 @@ CHECKS = {
     "C08": dict(
         level="model_checking", design="DESIGN.md §3 C08",
         technique="CrossHair (z3) exhaustion of a fault schedule: stub docstring parser / ParsedDocstring whose failures (which exception, at which call) are the variables, under the real wrapper layer of epydoc2stan",
-        text="Bounded model checking against an arbitrary environment: for every parser behaviour (success, ParseError, recoverable errors, 11 exception classes) x to_stan behaviour (11 exception classes x failing always / first call / second call / summary first) x to_node (ok / NotImplementedError) x docformat x process-types x docstring (x object kind, thorough): format_docstring/format_summary/format_toc return, the complete original text is shown after a fatal failure, the failure is reported against the object, parse_errors records it, no message is repeated, and a second object is unaffected. The behaviour of the real parsers on arbitrary text (the 'for all strings' half of the statement) is NOT decided.",
+        text="Bounded model checking against an arbitrary environment: for every parser behaviour (success, ParseError, recoverable errors, 11 exception classes) x to_stan behaviour (11 exception classes x failing always / first call / second call / summary first) x to_node (ok / NotImplementedError) x docformat x process-types x docstring x object kind (own docstring / docstring inherited from a base class; thorough: 5 kinds): format_docstring/format_summary/format_toc return, the complete original text is shown after a fatal failure, the failure is reported against the object, parse_errors records it, no message is repeated, and a second object is unaffected. The behaviour of the real parsers on arbitrary text (the 'for all strings' half of the statement) is NOT decided.",
         note="Trusted: CrossHair exhaustion verdict; the fault model is the documented contract of parser functions / ParsedDocstring (to_node raises NotImplementedError only). Stub installed by replacing epydoc2stan.get_parser_by_name.",
     ),
     "C18": dict(
@@ -86,13 +86,13 @@ CHECKS = {
     "C06": dict(
         level="exploration", design="DESIGN.md §3 C06",
         technique="CrossHair (z3) enumerates project shapes x processing schedules (symbolic permutation index of System.unprocessed_modules) and certifies exhaustion; the real System.process() runs under each schedule and canonical dumps are compared",
-        text="Bounded-exhaustive exploration with the schedule as a variable: for every template shape with a consumer module and every reachable processing order (package module first, sub-modules in any order; <= 6 orders), the canonical dump (type, kind, docstring, bases, resolved bases, linearisation per object) equals the dump under the default order; cyclic shapes are compared on the class hierarchy only. Two recorded findings are excused by key and replayed each run.",
+        text="Bounded-exhaustive exploration with the schedule as a variable: for every template shape with a consumer module and every reachable processing order (package module first, sub-modules in any order; <= 6 orders), the canonical dump (type, kind, docstring, bases, resolved bases, linearisation per object) equals the dump under the default order; cyclic shapes are compared on the class hierarchy only; a further dimension lets the defining module star-import a same-named object it then overrides. Three recorded findings are excused by key (the excuse is limited to 'unresolved in one order, resolved in the other') and replayed each run.",
         note="Trusted: CrossHair's exhaustion verdict over the choice variables; lib/templates.py; the schedule is imposed by permuting the unprocessed list.",
     ),
     "C07": dict(
         level="exploration", design="DESIGN.md §3 C07",
         technique="CrossHair (z3) enumerates re-export shapes x consumer forms x schedules and certifies exhaustion; the real builder runs on each and the re-export contract is evaluated on the resulting model",
-        text="Bounded-exhaustive exploration: for every re-export form (package plain/renamed/star, sibling plain) x origin __all__ x local definition x kind x nested x consumer form x every schedule: when the documented condition holds the object and all members are registered only under exporter.newname, the origin resolves the old name, find_object(old) is find_object(new) is the object, the consumer's name / base class lead to it, the url is the exporter's; otherwise the object stays where defined. One recorded finding (consumer naming the defining module) is excused by key and replayed each run.",
+        text="Bounded-exhaustive exploration: for every re-export form (package plain/renamed/star, sibling plain, the same name imported twice, plain then star) x origin __all__ x local definition x kind x nested x consumer form x every schedule: when the documented condition holds the object and all members are registered only under exporter.newname, the origin resolves the old name, find_object(old) is find_object(new) is the object, the object is a member of the exporting module, the consumer's name / base class lead to it, the url is the exporter's; otherwise the object stays where defined. One recorded finding (consumer naming the defining module) is excused by key and replayed each run.",
         note="Trusted: CrossHair's exhaustion verdict over the choice variables; lib/templates.py.",
     ),
     "C03": dict(
@@ -104,7 +104,7 @@ CHECKS = {
     "C11": dict(
         level="exploration", design="DESIGN.md §3 C11",
         technique="CrossHair (z3) enumerates project shapes x privacy rule lists x themes and certifies exhaustion; each is rendered by the real TemplateWriter and the written pages are parsed and crawled",
-        text="Bounded-exhaustive exploration: 3 600 renders (thorough 32 400): template project shapes (re-exports, duplicate definitions, nested classes, consumers with cross-references) x 9 privacy rule lists x theme; in every output directory each relative href/src resolves to a written file and its fragment to an id/name in it, url fields of the search documents likewise, and every visible object has its page/anchor. The rendering itself carries no symbolic values: this is exploration of bounded inputs, labelled as such.",
+        text="Bounded-exhaustive exploration: 3 600 renders (thorough 32 400): template project shapes (re-exports incl. of a function whose default names a sibling, duplicate definitions, nested classes, consumers with cross-references, subclasses showing inherited docstrings with same-page links) x 9 privacy rule lists x theme; in every output directory each relative href/src resolves to a written file and its fragment to an id/name in it, url fields of the search documents likewise, and every visible object has its page/anchor. The rendering itself carries no symbolic values: this is exploration of bounded inputs, labelled as such.",
         note="Trusted: CrossHair's exhaustion verdict over the choice variables; html.parser; lib/templates.py and lib/crawl.py. File-system side effects unblocked (mkdtemp only).",
     ),
 }
